@@ -17,6 +17,8 @@ import Gengo.Gen.Consts
 import Gengo.Model.DeepCopy
 import Gengo.Model.RuntimeDoc
 import Gengo.Model.TypeLit
+import Gengo.Model.Loader
+import Gengo.Model.Register
 open Gengo
 
 def hexVal (c : Char) : Nat :=
@@ -459,6 +461,62 @@ def runNames (fx : String → Bool) (self : String) (refs : List String) : Strin
 end C15Drv
 
 
+namespace C13Drv
+open Loader
+/-- `tables {<id>:<k t|c|f|v>:<s p|l|q>:<m 0|1>:<namehex>}*` — the Defs objects in the order given -/
+def parseObj (t : String) : Option Obj :=
+  match t.splitOn ":" with
+  | [id, k, sc, m, n] => some {
+      id := id.toNat!, name := unhex n,
+      kind := if k == "t" then .typeName else if k == "c" then .const_ else if k == "f" then .func else .var_,
+      scope := if sc == "p" then .pkg else if sc == "l" then .local_ else .typeParam,
+      isMethod := m == "1" }
+  | _ => none
+
+def showTab (m : List (List Char × Nat)) : String :=
+  String.intercalate "," ((sortByStr (·.1) m).map fun e => hex e.1 ++ "=" ++ toString e.2)
+
+def runTables (guarded : Bool) (toks : List String) : String :=
+  let defs := toks.filterMap parseObj
+  "types " ++ showTab (typesTable guarded defs []) ++
+  " consts " ++ showTab (tableOf guarded .const_ defs []) ++
+  " funcs " ++ showTab (tableOf guarded .func defs [])
+
+/-- `methods <t> <canPtr> {<namehex>:<origin>:<object>:<ptr>}*` -/
+def runMethods (byOrigin : Bool) (t canPtr : String) (toks : List String) : String :=
+  let ms : List Methods.Method := toks.filterMap fun x => match x.splitOn ":" with
+    | [n, o, ob, p] => some ⟨unhex n, o.toNat!, ob.toNat!, p == "1"⟩
+    | _ => none
+  String.intercalate "," ((Methods.methodsOf byOrigin ms t.toNat! (canPtr == "1")).map fun m => hex m.name)
+
+/-- `register <root>* | {<path>><imp>,<imp>…}*` — registration from the roots in order; answers every
+    package's import table as path=0/1 (resolved to non-nil) -/
+def runRegister (fixed : Bool) (toks : List String) : String :=
+  let roots := toks.takeWhile (· != "|")
+  let nodes : Register.Graph := (toks.dropWhile (· != "|")).drop 1 |>.map fun t =>
+    match t.splitOn ">" with
+    | [p, is] => ⟨unhex p, if is == "" then [] else (is.splitOn ",").map unhex⟩
+    | _ => ⟨unhex t, []⟩
+  let u := roots.foldl (fun u r => if (u.lookup (unhex r)).isSome then u else Register.register fixed nodes (nodes.length + 1) (unhex r) u) []
+  String.intercalate " " ((sortByStr (·.1) u).map fun e =>
+    hex e.1 ++ ":" ++ String.intercalate "," ((sortByStr (·.1) e.2).map fun i => hex i.1 ++ "=" ++ (if i.2 then "1" else "0")))
+
+/-- `locate <dirsegs> {<pkgpathsegs>;<modpath>;<moddir>}*` segments joined by `/`, `-` = no module -/
+def segs (s : String) : Locate.Path := if s == "" || s == "." then [] else (s.splitOn "/").map String.toList
+def runLocate (dir : String) (toks : List String) : String :=
+  let ps : List Locate.P := toks.map fun t => match t.splitOn ";" with
+    | [pp, mp, md] => ⟨segs pp, if mp == "-" then none else some (segs mp, segs md)⟩
+    | _ => ⟨[], none⟩
+  let sd := ps.map fun p => match Locate.sourceDir p with
+    | none => "-"
+    | some d => String.intercalate "/" (d.map String.ofList)
+  let loc := match Locate.locate ps (segs dir) with
+    | none => "none"
+    | some p => String.intercalate "/" (p.pkgPath.map String.ofList)
+  "dirs " ++ String.intercalate "," sd ++ " locate " ++ loc
+end C13Drv
+
+
 def handle (fx : String → Bool) (line : String) : String :=
   let fxB := fx "all"
   let fx1 := if fxB then "1" else "0"
@@ -523,6 +581,10 @@ def handle (fx : String → Bool) (line : String) : String :=
     (match Resolver.resultsOf funcs (fx == "1") 200 f.toNat! with
      | none => "diverge"
      | some rs => "(" ++ String.intercalate ", " (rs.map fun r => String.intercalate " | " (r.map showRes)) ++ ")")
+  | "tables" :: toks => C13Drv.runTables (fx "F12a") toks
+  | "methods" :: t :: canPtr :: toks => C13Drv.runMethods (fx "F12c") t canPtr toks
+  | "register" :: toks => C13Drv.runRegister (fx "F12b") toks
+  | "locate" :: dir :: toks => C13Drv.runLocate dir toks
   | "sumrt" :: kvs =>
     let rec pairs : List String → List (List Char × List Char)
       | k :: v :: r => (unhex k, unhex v) :: pairs r
